@@ -3,7 +3,7 @@
 LineFirmware: Marlin-style line-number / checksum protocol.
   - expects N<last+1>; `M110 N<k>` sets last = k; a bad checksum, a corrupted transmission or a wrong
     line number is answered with an Error line and `Resend: <last+1>`;
-  - dialect "A" (Marlin): the Resend line is followed by `ok`; dialect "B": Resend only.
+  - dialect "A" (Marlin): the Resend line is followed by `ok`; dialect "B": Resend only; dialect "C": a bare `rs N<n>` line.
   - unnumbered lines are executed and acknowledged with ok.
 """
 
@@ -35,8 +35,10 @@ class LineFirmware:
         return [self.greeting] if self.greeting else []
 
     def _resend(self, why):
-        out = [f"Error:{why}, Last Line: {self.last}", f"Resend: {self.last + 1}"]
         self.requests.append((len(self.wire), self.last + 1))
+        if self.dialect == "C":          # Sprinter / Teacup style: a bare 'rs N<n>' line, nothing else
+            return [f"rs N{self.last + 1}"]
+        out = [f"Error:{why}, Last Line: {self.last}", f"Resend: {self.last + 1}"]
         if self.dialect == "A":
             out.append("ok")
         return out
